@@ -213,7 +213,7 @@ def oracle (implObs : List (List String)) : String :=
   | _ =>
     match (obsTok implObs "ev").bind boolOfTok, (obsTok implObs "twin").bind boolOfTok, obsTok implObs "fast" with
     | some ev, some twin, some f =>
-      SpecC12.verdict { ev := ev, twin := twin, fast := boolOfTok f }
+      SpecC12.verdict { ev := ev, twin := twin, fast := boolOfTok f, failed := obsTok implObs "gen" == some "err" }
     | _, _, _ => "fail:observation-missing"
 
 def stepOp (op : List String) (implObs : List (List String)) : Option Step :=
